@@ -11,6 +11,8 @@ from pathlib import Path
 
 VERIF = Path(__file__).resolve().parent.parent
 jobs = int(sys.argv[sys.argv.index("--jobs") + 1]) if "--jobs" in sys.argv else 6
+# --only b7,b8,b9 : only the changes whose id ends in one of these (a later round); the table goes to CROSS-<tags>.md
+only = sys.argv[sys.argv.index("--only") + 1].split(",") if "--only" in sys.argv else None
 props = [json.loads(l) for l in (VERIF / "properties.jsonl").read_text().splitlines() if l.strip()]
 anch = {p["id"]: set(p["anchors"]["files"]) for p in props}
 # helper modules every reader goes through count for the reader properties too
@@ -51,7 +53,8 @@ def one(job):
         return d.name, {"error": (r.stdout + r.stderr)[-300:]}
 
 
-dirs = sorted(p for p in (VERIF / "benign").iterdir() if p.is_dir() and not p.name.endswith("x"))
+dirs = sorted(p for p in (VERIF / "benign").iterdir() if p.is_dir() and not p.name.endswith("x")
+              and (only is None or p.name.split("-")[-1] in only))
 with ThreadPoolExecutor(jobs) as ex:
     results = dict(ex.map(one, [(d, targets(d)) for d in dirs]))
 lines = ["# Harmless rewrites against the checks of OTHER properties that share their files (tools/benigncross.py)", "",
@@ -71,7 +74,7 @@ for d in dirs:
                       f"{[b[0] for b in c.get('broken', [])][:2]}")
     lines.append(f"| {d.name} | {' '.join(res) or '—'} | {'; '.join(al) or 'none'} |")
 lines += ["", f"{n - bad} of {n} (change, other check) pairs are quiet."]
-(VERIF / "benign" / "CROSS.md").write_text("\n".join(lines) + "\n")
+(VERIF / "benign" / ("CROSS.md" if only is None else "CROSS-" + "-".join(only) + ".md")).write_text("\n".join(lines) + "\n")
 print(lines[-1])
 for l in lines:
     if "rc 1" in l or "rc 2" in l or "error" in l:
